@@ -85,6 +85,8 @@ def b_isinstance(ex, n, awaited, recv=None):
 def isinstance_term(ex, x: V, c: V):
     if c.ty.kind == 'tuple':
         return z3.Or(*[isinstance_term(ex, x, ci) for ci in c.term])
+    if c.ty.kind == 'py' and c.py[0] == 'fn' and c.py[1] in ('str', 'int', 'float', 'bool', 'list', 'dict', 'tuple', 'set', 'type'):
+        c = V(PY, py=('cls', c.py[1]))
     if c.ty.kind == 'py' and c.py[0] == 'cls':
         cname = c.py[1]
         if x.ty.kind == 'int':
